@@ -32,7 +32,7 @@ impl Rep {
             max_samples: 3,
             nviol: 0,
             written_viol: 0,
-            max_viol: 25,
+            max_viol: std::env::var("VH_MAX_VIOL").ok().and_then(|x| x.parse().ok()).unwrap_or(25),
             maxes: BTreeMap::new(),
             start: std::time::Instant::now(),
         }
